@@ -12,6 +12,8 @@ usage: tools/benign_rename.py [reformat|suffix|scramble] [PID ...]
   yoda      operands of every == / != comparison swapped
   augassign every `x = x <op> e` rewritten as `x <op>= e`
   emptyctor every empty `[]` / `{}` literal on the right of an assignment rewritten as list() / dict()
+  flatten   `if c: <body ending in return/continue/break/raise> else: B` rewritten as `if c: <body>` followed by B
+  nest      the reverse: the statements after `if c: <... return>` moved into an else branch
   alias     every statement `self.a[.b].m(args)` / `x = self.a[.b].m(args)` rewritten as `_r = self.a[.b]` followed by `_r.m(args)`
 Locals are names stored in the function body that are not parameters, not global/nonlocal, and not read by a nested function.
 The variant is written to a scratch directory (removed afterwards), every check is run with --repo <scratch>, and every
@@ -172,7 +174,52 @@ class Alias(ast.NodeTransformer):
         return node
 
 
-TRANSFORMERS = {"alias": Alias, "invert": Invert, "guard": Guard, "yoda": Yoda, "augassign": Aug, "emptyctor": EmptyCtor}
+class Flatten(ast.NodeTransformer):
+    """`if c: <body that always leaves> else: B`  ->  `if c: <body>` followed by B (the else branch is lifted out)"""
+    def _leaves(self, body):
+        return bool(body) and isinstance(body[-1], (ast.Return, ast.Continue, ast.Break, ast.Raise))
+
+    def _block(self, stmts):
+        out = []
+        for st in stmts:
+            if isinstance(st, ast.If) and st.orelse and self._leaves(st.body):
+                out.append(ast.If(test=st.test, body=st.body, orelse=[]))
+                out.extend(self._block(st.orelse))
+            else:
+                out.append(st)
+        return out
+
+    def generic_visit(self, node):
+        super().generic_visit(node)
+        for fld in ("body", "orelse", "finalbody"):
+            b = getattr(node, fld, None)
+            if isinstance(b, list) and b and isinstance(b[0], ast.stmt):
+                setattr(node, fld, self._block(b))
+        return node
+
+
+class Nest(ast.NodeTransformer):
+    """the reverse: `if c: <body that always leaves>` followed by the rest of the block  ->  `if c: <body> else: <rest>`"""
+    def _leaves(self, body):
+        return bool(body) and isinstance(body[-1], (ast.Return, ast.Continue, ast.Break, ast.Raise))
+
+    def _block(self, stmts):
+        for i, st in enumerate(stmts):
+            if isinstance(st, ast.If) and not st.orelse and self._leaves(st.body) and i + 1 < len(stmts) \
+                    and not any(isinstance(x, (ast.FunctionDef, ast.ClassDef, ast.Global, ast.Nonlocal)) for x in stmts[i + 1:]):
+                return stmts[:i] + [ast.If(test=st.test, body=st.body, orelse=self._block(stmts[i + 1:]))]
+        return stmts
+
+    def generic_visit(self, node):
+        super().generic_visit(node)
+        for fld in ("body", "orelse", "finalbody"):
+            b = getattr(node, fld, None)
+            if isinstance(b, list) and b and isinstance(b[0], ast.stmt):
+                setattr(node, fld, self._block(b))
+        return node
+
+
+TRANSFORMERS = {"flatten": Flatten, "nest": Nest, "alias": Alias, "invert": Invert, "guard": Guard, "yoda": Yoda, "augassign": Aug, "emptyctor": EmptyCtor}
 
 
 def transform(src: str) -> str:
